@@ -427,6 +427,13 @@ def parse (cfg : Config) (doc : List (Event ν)) : Except Err (List (Spectrum ν
   | .error e => .error e
   | .ok (_, out) => .ok out
 
+/-- several documents parsed one after the other by the same reader object / on the same thread: every call
+    of `parse` declares its locals afresh (`PState.init`), nothing — no scratch buffer, no cache — is carried from
+    one call to the next, whether the previous call returned spectra or an error -/
+def parseSeq : List (Config × List (Event ν)) → List (Except Err (List (Spectrum ν)))
+  | [] => []
+  | (cfg, doc) :: rest => parse cfg doc :: parseSeq rest
+
 /-! ## schema-shaped documents and their direct reading (the specification)
 
 A `SpecEl` is one `<spectrum>` element in the child order the mzML schema prescribes: cvParams,
